@@ -111,7 +111,29 @@ def check_slice(ctx, db):
 def check_call_sites(ctx, db):
     f = db.fn('gdstk::Cell::to_gds')
     ctx.touch(f)
-    sites = [i for i in f.walk() if i.k == 'IfStmt' and 'max_points > 4' in norm(i.child('cond').text())]
+    sites = [i for i in f.walk() if i.k == 'IfStmt' and i.child('then') is not None and any(x.k == 'CXXMemberCallExpr' and (x.callee or '').endswith('Polygon::fracture') for x in i.child('then').walk())
+             and not any(a.k == 'IfStmt' and any(x.k == 'CXXMemberCallExpr' and (x.callee or '').endswith('Polygon::fracture') for x in a.child('then').walk()) for a in i.ancestors() if a.child('then') is not None)]
+    # the writer's guard and fracture's own no-op test must agree: fracture is only asked when it acts
+    from .C19 import ieval
+    fr_fn = db.fn('gdstk::Polygon::fracture')
+    early = next((i for i in fr_fn.body.c if i is not None and i.k == 'IfStmt' and 'max_points' in norm(i.child('cond').text()) and tables._always_leaves(i.child('then'))), None)
+    if early is None:
+        raise AnalysisBroken('Polygon::fracture: early return on max_points not found')
+    for i in sites:
+        c = _strip_casts(i.child('cond'))
+        g = c.child('lhs') if c.k == 'BinaryOperator' and c.op == '&&' else None
+        bad = None
+        if g is None or 'max_points' not in norm(g.text()) or 'count' in norm(g.text()):
+            bad = 'guard is not `limit test && count > max_points`: %s' % norm(c.text())
+        else:
+            for m in range(0, 12):
+                if ieval(g, {'max_points': m}) and ieval(early.child('cond'), {'max_points': m}):
+                    bad = 'for max_points = %d the writer asks fracture to split the polygon, but fracture returns without producing any piece: the polygon is lost' % m
+                    break
+                if not ieval(g, {'max_points': m}) and not ieval(early.child('cond'), {'max_points': m}):
+                    bad = 'for max_points = %d the limit is ignored although fracture would act' % m
+                    break
+        ctx.check(bad is None, 'R-TABLE', 'Cell::to_gds/limit-guard@%d' % i.l, i.loc(), 'for max_points 0..11 the writer fractures exactly when Polygon::fracture acts (limit >= 5)', bad)
     mem = []
     for i in sites:
         txt = norm(clone.canon(i, f, ren=clone.Renamer(f, params_by_name=True)))
@@ -122,7 +144,7 @@ def check_call_sites(ctx, db):
     clone.check_family(ctx, 'R-CLONE', 'Cell::to_gds vertex-limit blocks', mem, 3)
     for i in sites:
         c = norm(i.child('cond').text(clone.Renamer(f, params_by_name=True)))
-        ok = re.match(r'^\(\(\$max_points > 4\) && \(v\d+->point_array\.count > \$max_points\)\)$', c) is not None
+        ok = re.match(r'^\(\(\$max_points >=? \d+\) && \(v\d+->point_array\.count > \$max_points\)\)$', c) is not None
         fr = [x for x in i.child('then').walk() if x.k == 'CXXMemberCallExpr' and (x.callee or '').endswith('Polygon::fracture')]
         tg = [x for x in i.walk() if x.k == 'CXXMemberCallExpr' and (x.callee or '').endswith('Polygon::to_gds')]
         ok = ok and len(fr) == 1 and [norm(a.text(clone.Renamer(f, params_by_name=True))) for a in fr[0].args][:2] == ['$max_points', '$precision'] and len(tg) == 2
